@@ -462,6 +462,59 @@ example : Ranges.CountVectorizer.Finite { n_gram_range := (1, 2), document_frequ
 example : Gen.C04.CountVectorizer.check { n_gram_range := (1, 1), document_frequency := (.fin (1/2), .fin (3/2)), split_regex_ok := true }
     = .error "InvalidDocumentFrequencies" := by c04_eval CountVectorizer
 
+/-! ## Rebuild setters (`with_rng`, wrapper setters): the guarded fields, hence the outcome, are preserved -/
+
+/-- a setter `r` under which the guard is invariant leaves every outcome of the trait-level code as it was: same verdict
+and error of `check_ref` / `check`, same error from `fit` on the unchecked builder -/
+theorem rebuild_preserves_outcome {P E E' M D : Type} (chk : P → Except E Unit) (conv : E → E')
+    (fit : P → D → Except E' M) (r : P → P) (h : ∀ p, chk (r p) = chk p) (p : P) (d : D) :
+    ((∃ q, checkRef chk (r p) = .ok q) ↔ (∃ q, checkRef chk p = .ok q)) ∧
+    (∀ e, checkRef chk (r p) = .error e ↔ checkRef chk p = .error e) ∧
+    (∀ e, checkVal chk (r p) = .error e ↔ checkVal chk p = .error e) ∧
+    (∀ e, chk p = .error e → fitUnchecked chk conv fit (r p) d = .error (conv e)) ∧
+    (chk p = .ok () → fitUnchecked chk conv fit (r p) d = fit (r p) d) := by
+  have hr := h p
+  unfold fitUnchecked checkVal checkRef
+  rw [hr]
+  cases chk p <;> simp
+
+/-- `GmmParams::with_rng` copies every guarded field (in particular `max_n_iter`) -/
+theorem Gmm.withRng_preserves (p : Gen.C04.Gmm.Params) :
+    (Ranges.Gmm.withRng p).n_clusters = p.n_clusters ∧ (Ranges.Gmm.withRng p).tolerance = p.tolerance ∧
+    (Ranges.Gmm.withRng p).reg_covar = p.reg_covar ∧ (Ranges.Gmm.withRng p).n_runs = p.n_runs ∧
+    (Ranges.Gmm.withRng p).max_n_iter = p.max_n_iter ∧
+    Gen.C04.Gmm.check (Ranges.Gmm.withRng p) = Gen.C04.Gmm.check p := by
+  cases p; simp [Ranges.Gmm.withRng]
+
+/-- so an invalid value set before `with_rng` is still rejected after it, with the same error -/
+theorem Gmm.withRng_rejects (p : Gen.C04.Gmm.Params) (h : Ranges.Gmm.Finite p) (hbad : ¬ Ranges.Gmm.InRange p) :
+    ∃ t, Gen.C04.Gmm.check (Ranges.Gmm.withRng p) = .error t := by
+  rw [(Gmm.withRng_preserves p).2.2.2.2.2]
+  cases hc : Gen.C04.Gmm.check p with
+  | error t => exact ⟨t, rfl⟩
+  | ok u => exact absurd ((Gmm.check_ok_iff p h).mp (by rw [hc])) hbad
+example : Gen.C04.Gmm.check (Ranges.Gmm.withRng { n_clusters := 2, tolerance := .fin (1/1000), reg_covar := .fin 0, n_runs := 1, max_n_iter := 0 })
+    = .error "InvalidValue:_max_n_iterations__canno" := by
+  simp [Ranges.Gmm.withRng, Gen.C04.Gmm.check, Gen.C04.Gmm.guards]
+
+/-- `RandomProjectionParams::with_rng` copies the `Dimension` / `Epsilon` variant -/
+theorem RandomProjection.withRng_preserves (p : Gen.C04.RandomProjection.Params) :
+    (Ranges.RandomProjection.withRng p).params = p.params ∧
+    Gen.C04.RandomProjection.check (Ranges.RandomProjection.withRng p) = Gen.C04.RandomProjection.check p := by
+  cases p; simp [Ranges.RandomProjection.withRng]
+example : Gen.C04.RandomProjection.check (Ranges.RandomProjection.withRng { params := .Dimension 0 }) ≠ .ok () := by
+  simp [Ranges.RandomProjection.withRng, Gen.C04.RandomProjection.check, Gen.C04.RandomProjection.guards]
+
+/-- `TfIdfVectorizer` setters: when the inner setter `f` keeps the guard's verdict, `fit*` on the re-wrapped vectoriser
+returns the same checking error -/
+theorem tfidf_setter_preserves {P E M M' Mt D : Type} (chk : P → Except E Unit) (fit : P → D → Except E M) (wrap : M → M')
+    (f : P → P) (h : ∀ p, chk (f p) = chk p) (w : P × Mt) (d : D) (e : E) (he : chk w.1 = .error e) :
+    wrapUnchecked chk fit wrap (Ranges.tfidfSet f w).1 d = .error e ∧ (Ranges.tfidfSet f w).2 = w.2 := by
+  refine ⟨?_, rfl⟩
+  exact (wrap_on_unchecked chk fit wrap _ d).1 e (by simpa [Ranges.tfidfSet, h] using he)
+example : wrapUnchecked (fun n : Nat => if n = 0 then .error "zero" else .ok ())
+    (fun n (_ : Unit) => (.ok (n + 1) : Except String Nat)) (fun m => (m, m)) (Ranges.tfidfSet id ((0 : Nat), "smooth")).1 () = .error "zero" := rfl
+
 /-! ## Which error, concretely — order-free: the error names a documented bound the parameters violate
 
 (The statement promises "exactly the checking error", not which one a doubly-invalid builder gets; these theorems
